@@ -4,6 +4,7 @@
 use super::*;
 use super::super::hist::{ErrClass, oracle_c01};
 use super::super::model::{self, Outcome};
+use super::super::scen::DirPart;
 use std::sync::Arc;
 use super::super::rt::FileMap;
 
@@ -299,9 +300,40 @@ pub fn run_one(cfg : &Config, seed : u64, k : u64, stats : &mut Stats) -> Vec<Fo
     let new = { let mut n = old.clone(); n.extend_from_slice(b"'"); n };
 
     case.ops.push(Op::Build{ goal : None, sched : SchedSpec::random(&mut rng) });
+    // long memory: the victim is built from other states of its declared sources in between, and
+    // cached copies of its first outputs are evicted, before the undeclared input changes and the
+    // declared sources return to the first state
+    let victim_leaves : Vec<String> = rules[victim].sources.iter().filter(|s| gen.leaf_names().contains(s)).cloned().collect();
+    let long_memory = victim_leaves.len() > 0 && rng.chance(1, 3);
+    let mut revert_declared : Option<(String, Vec<u8>)> = None;
+    if long_memory
+    {
+        stats.inc("c17.histories_with_other_source_states_in_between");
+        let l = rng.pick(&victim_leaves).clone();
+        let first = files.get(&l).cloned().unwrap_or(vec![]);
+        let states = rng.range(1, 3);
+        for i in 0..states
+        {
+            let mut c = first.clone();
+            c.extend_from_slice(format!("~{}", i).as_bytes());
+            case.ops.push(Op::Write{ path : l.clone(), content : c });
+            if i == 0 || rng.chance(1, 2)
+            {
+                match rng.below(4)
+                {
+                    0 => {},
+                    1 => case.ops.push(Op::DeleteRulerDir{ part : DirPart::Cache }),
+                    _ => for t in rules[victim].targets.iter() { if let Some(b) = original.get(t) { if rng.chance(2, 3) { case.ops.push(Op::DeleteCacheContent{ content : b.clone() }); } } },
+                }
+            }
+            case.ops.push(Op::Build{ goal : None, sched : SchedSpec::random(&mut rng) });
+        }
+        revert_declared = Some((l, first));
+    }
     case.ops.push(Op::Write{ path : h.clone(), content : new });
+    if let Some((l, c)) = &revert_declared { case.ops.push(Op::Write{ path : l.clone(), content : c.clone() }); }
     let mut unrelated_edit : Option<(String, Vec<u8>)> = None;
-    if rng.chance(1, 2)
+    if !long_memory && rng.chance(1, 2)
     {
         // an unrelated rule gets new work in the same build as the contradiction
         let leaves = gen.leaf_names();
